@@ -495,30 +495,34 @@ func e2eRedeliveryScenario(c int) *explore.Scenario {
 					return
 				}
 				defer cancel()
-				n := 0
+				// one reply per handling of this requester's command; the Pub/Sub may deliver them in any order, so
+				// each reply is matched with the handling it names; the requester reads until the successful one
+				want := 1
+				if id == "cmd0" {
+					want = failFirst + 1
+				}
+				seen := map[int]bool{}
 				for rep := range ch {
-					n++
+					k := 0
+					fmt.Sscanf(rep.HandlerResult.Val, "res-"+id+"-%d", &k)
 					wantErr := ""
-					if id == "cmd0" && n <= failFirst {
-						wantErr = fmt.Sprintf("err-%s-%d", id, n)
+					if id == "cmd0" && k <= failFirst {
+						wantErr = fmt.Sprintf("err-%s-%d", id, k)
 					}
 					gotErr := ""
 					if rep.Error != nil {
 						gotErr = rep.Error.Error()
 					}
-					if rep.HandlerResult.Val != fmt.Sprintf("res-%s-%d", id, n) || gotErr != wantErr {
-						vs.Fail("own-replies-only", "requester of %s: reply %d carries result %q error %q", id, n, rep.HandlerResult.Val, gotErr)
+					if k < 1 || k > want || seen[k] || gotErr != wantErr {
+						vs.Fail("own-replies-only", "requester of %s received a reply with result %q error %q (replies so far %v, %d handlings expected)", id, rep.HandlerResult.Val, gotErr, seen, want)
 					}
+					seen[k] = true
 					if rep.Error == nil {
 						break
 					}
 				}
-				want := 1
-				if id == "cmd0" {
-					want = failFirst + 1
-				}
-				if n != want {
-					vs.Fail("own-replies-only", "requester of %s received %d replies, expected %d (one per handling)", id, n, want)
+				if !seen[want] {
+					vs.Fail("own-replies-only", "requester of %s never received the reply of the successful handling %d (got %v)", id, want, seen)
 				}
 			}()
 		}
